@@ -12,6 +12,11 @@ inductive PyExc where
   | valueError (msg : String)
   | keyError
   | exception (msg : String)
+  /-- a translated `while` loop was still running after `fuel` executions of its body (see harness/pytrans.py): the real
+  call has not returned yet; the same outcome at every fuel means that it never returns -/
+  | fuel
+  /-- `None.<attr>` -/
+  | attributeError
   deriving DecidableEq, Repr
 
 abbrev PSet := List Nat
